@@ -32,7 +32,7 @@ CLAIMED = {
    text="Every 26-completion history with <= DB deviations (drop, ignore, sub-threshold, long, overlapping, gap) on a manual virtual clock: the delegate's received OnSample sequence (position and arguments) equals the reference fold; two completions racing a window close must yield the fold of one of their two orders.",
    ref="DESIGN 7 C09", note="windowSize 10; DB 2 for 8 configurations + DB 3 for one each (quick), DB 3 (thorough)"),
  "C10": dict(technique=T_T + "; lazy virtual clock, oracle at every quiescent state",
-   text="All interleavings of a releasing holder with 1-3 callers going to sleep, for blocking/deadline/queue limiters and all outcomes: at every quiescent state no caller is parked while capacity is free; violations carry a signature computed from public-seam events.",
+   text="All interleavings of a releasing holder with 1-3 callers going to sleep, for blocking/deadline/queue limiters and all outcomes (also releases that arrive one poll period late, or on the very instant of the waiter's poll timeout): at every quiescent state no caller is parked while capacity is free; violations carry a signature computed from public-seam events.",
    ref="DESIGN 7 C10", note="lazy clock: a timeout-driven retry shows as a quiescent state with a parked caller"),
  "C11": dict(technique=T_T + " (preemption bound 0: exhaustive event sequences of a quiescence-stepped driver) + racing releases",
    text="Every sequence of arrivals/releases/timeouts/cancellations up to a depth, for every constructor (config, defaults, deprecated FIFO/LIFO wrappers, pools): each grant goes to the waiter a reference FIFO/LIFO queue predicts.",
